@@ -84,6 +84,16 @@ func firstLine(s string, n int) string {
 	return s
 }
 
+// safeErrString renders an error; rendering itself must not take the test process down.
+func safeErrString(err error) (s string) {
+	defer func() {
+		if r := recover(); r != nil {
+			s = fmt.Sprintf("<%T: Error() panicked: %v>", err, r)
+		}
+	}()
+	return err.Error()
+}
+
 func observe(hist prog.History, e host.Engine, record bool) Trace {
 	rs, lim, gauges, final := splicegen.Run(nil, hist, e, record)
 	tr := Trace{Engine: e.String()}
@@ -91,7 +101,7 @@ func observe(hist prog.History, e host.Engine, record bool) Trace {
 		ci := host.Classify(r)
 		o := Obs{Class: ci.Class, Root: ci.Root, Logs: r.Logs, Limited: lim[i]}
 		if r.Err != nil {
-			o.Err = firstLine(r.Err.Error(), 600)
+			o.Err = firstLine(safeErrString(r.Err), 600)
 		}
 		if r.Panic != nil {
 			o.Err = firstLine(fmt.Sprintf("GO PANIC: %v", r.Panic), 600)
